@@ -15,6 +15,12 @@ void vp_gset(int i, int v) noexcept;
 int vp_gadd(int i, int d) noexcept;        // returns the new value
 void vp_win_enter(int obj, int excl) noexcept;  // access-window monitor (asserts reader/writer exclusion)
 void vp_win_exit(int obj, int excl) noexcept;
+int vp_win_readers(int obj) noexcept;       // readers currently inside the window
+void vp_intent_excl(int delta) noexcept;    // +1 before an exclusive acquisition begins, -1 after it was released (C02)
+void vp_intent_shared(int on) noexcept;     // the acquisition this thread is about to make is a shared one (C02)
+int vp_hist_begin(int kind, int a1, int a2) noexcept;   // linearizability history (C15); kinds: 0 load 1 store 2 xchg 3 cas
+void vp_hist_end(int idx, int r1, int r2) noexcept;
+void vp_lin_check(int init) noexcept;
 void vp_cover(int bit) noexcept;           // witness coverage bits
 void vp_log(int tag, int v) noexcept;      // observation log (translation validation)
 int vp_mutex_owner(const void* m) noexcept;     // model state of a pthread mutex: 0 free, else owner id + 1
